@@ -1,11 +1,15 @@
 #!/bin/bash
-# usage: tools/seed_matrix.sh [dir-glob...]  — for every seeded/* and sensitivity/* change (or the given dirs):
-# apply it to /repo, run the quick check of the property it targets (plus the extra ones named in
-# its meta.json "also_run"), revert, and print one line per (change, check). Nothing is committed in /repo.
+# usage: tools/seed_matrix.sh [-j N] [dir...]  — for every seeded/* and sensitivity/* change (or the given dirs):
+# apply it to a scratch worktree of /repo HEAD, run the quick check of the property it targets (plus the extra
+# ones named in its meta.json "also_run") from a scratch copy of /verif, and print one line per change.
+# Neither /repo nor /verif is touched (tools/try_patch_scratch.sh); N changes are processed at a time.
 cd "$(dirname "$0")/.."
-dirs=("$@"); [ ${#dirs[@]} -eq 0 ] && dirs=(seeded/* sensitivity/*)
-for d in "${dirs[@]}"; do
-  [ -f "$d/patch.diff" ] || continue
+jobs=5
+if [ "$1" = "-j" ]; then jobs=$2; shift; shift; fi
+dirs=("$@"); [ ${#dirs[@]} -eq 0 ] && dirs=(seeded/agent-* sensitivity/*)
+one() {
+  d=$1
+  [ -f "$d/patch.diff" ] || exit 0
   props=$(python3 - "$d" <<'PY'
 import json,sys
 m=json.load(open(sys.argv[1]+'/meta.json'))
@@ -13,6 +17,8 @@ ps=[m.get('property','')]+list(m.get('also_run',[]))
 print(' '.join(p for p in ps if p))
 PY
 )
-  res=$(tools/try_patch.sh "$d/patch.diff" $props 2>&1 | grep '^==' | sed -E 's/KNOWN-FINDING[^=]*\(key=[^)]*\)//; s/replay=[^ ]*//g' | cut -c1-90 | tr '\n' ';')
+  res=$(tools/try_patch_scratch.sh "$d/patch.diff" $props 2>&1 | grep '^==' | sed -E 's/replay=[^ ]*//g' | cut -c1-90 | tr '\n' ';')
   echo "$d: $res"
-done
+}
+export -f one
+printf '%s\n' "${dirs[@]}" | xargs -P "$jobs" -I{} bash -c 'one {}'
